@@ -2,6 +2,7 @@ package main
 
 import (
 	"fmt"
+	"runtime"
 	"time"
 
 	"github.com/ddddddO/gtree"
@@ -9,6 +10,7 @@ import (
 	"verif/harness/evid"
 	"verif/harness/real"
 	"verif/harness/tok"
+	"verif/harness/wproto"
 )
 
 func init() { register("C04", "model_checking", checkC04) }
@@ -71,6 +73,40 @@ func checkEncoders(r *evid.Run, d *DocState, concs []*tok.Conc) {
 	}
 }
 
+// checkEncodersMassive: the massive-mode encoders (worker process: a crash in a pipeline goroutine must
+// not take the driver down); roots may come in any order
+func checkEncodersMassive(r *evid.Run, pool *wproto.Pool, d *DocState, c *tok.Conc) {
+	doc := c.Doc(d.Doc)
+	for _, er := range encRoutes {
+		if er.single && len(d.Forest) != 1 {
+			continue
+		}
+		rp := pool.Call(wproto.Req{Op: "output", Doc: doc, Format: er.name, Massive: true}, 30*time.Second)
+		r.Count("real_calls", 1)
+		route := "md-" + er.name + "/massive"
+		rec := docReplay{Doc: d.Doc, Conc: c, Bytes: doc, Route: route, Got: rp.Out, Err: rp.Err}
+		if rp.Class != "ok" {
+			r.Mismatch(route+":"+rp.Class, fmt.Sprintf("doc=%q conc=%s err=%s", doc, c.Name, rp.Err), rec)
+			continue
+		}
+		dt, err := er.decode(rp.Out)
+		if err != nil {
+			r.Mismatch(route+":not-well-formed", fmt.Sprintf("doc=%q conc=%s out=%q decode error: %v", doc, c.Name, rp.Out, err), rec)
+			continue
+		}
+		var got, want []string
+		for _, t := range dt {
+			got = append(got, treeKey(t))
+		}
+		for _, t := range d.Forest {
+			want = append(want, specTreeKey(t, c))
+		}
+		if !sameStrs(sortedCopy(got), sortedCopy(want)) {
+			r.Mismatch(route+":not-isomorphic", fmt.Sprintf("doc=%q conc=%s out=%q", doc, c.Name, rp.Out), rec)
+		}
+	}
+}
+
 func checkDecoded(r *evid.Run, d *DocState, c *tok.Conc, doc, route string, er encRoute, o real.Outcome, want []*Tree) {
 	rp := docReplay{Doc: d.Doc, Conc: c, Bytes: doc, Route: route, Got: o.Out, Err: o.ErrString()}
 	if o.Class() != "ok" {
@@ -104,6 +140,11 @@ func checkC04(r *evid.Run) {
 		names = append(names, fmt.Sprintf("%q/%q", c04Pools[k%len(c04Pools)][0], c04Pools[k%len(c04Pools)][1]))
 	}
 	r.Set("hostile_chunk_pairs", names)
+	pool := workerPool(r, runtime.NumCPU())
+	if pool == nil {
+		return
+	}
+	defer pool.Close()
 	runDocModel(r, modelRun{Module: "MC_C04", Cfg: cfg, Timeout: timeout}, func(d *DocState) {
 		if len(d.Forest) == 0 {
 			return
@@ -116,9 +157,10 @@ func checkC04(r *evid.Run) {
 		}
 		cs := concs
 		if r.Tier == "thorough" && d.Nodes() > 4 {
-			cs = concs[:6] // the largest forests under a subset of the pools
+			cs = concs[:4] // the largest forests under a subset of the pools
 		}
 		checkEncoders(r, d, cs)
+		checkEncodersMassive(r, pool, d, cs[d.N%len(cs)])
 	})
 	r.Set("exhaustive", true)
 	r.Set("rule", "every forest up to the bound over 4 names x {JSON, YAML, TOML(single root)} x {From-Markdown iter, From-Markdown slice, From-Root}, decoded with the decoders gtree links and compared structurally; each under hostile concretisations of the chunks; non-trivial = at least 2 nodes")
